@@ -41,7 +41,7 @@ def run(repo, res, tier):
     common.triage_tb3(repo, res)
     table = __import__("vsa.triage", fromlist=["TABLE"]).TABLE
     for f in res.findings:
-        if f.rule == "T3" and f.key not in table:
+        if f.rule == "T3" and not __import__("vsa.triage", fromlist=["matches"]).matches(f.key, table):
             bad_origins.setdefault(f.extra["origin"], set()).add(f.extra["exc"])
     for s in sorted(sites):
         res.oblige("T3", s, ok=s not in bad_origins and not any(s in o for o in bad_origins),
